@@ -2,36 +2,34 @@
    Only statements; every proof is `exact <lemma>` followed by Print Assumptions.
    Statements are pinned in /verif/statements.lock.
 
+   The model describes stats.rs with the repairs of the findings C19-K1 (per-tool cap), C19-K2
+   (a line listed twice counts once) and C19-K4 (saturating counters).
+
    Objects.  commit_stats m ignored n raw is_merge ga gd is steps 3-5 of stats_for_commit_stats:
    n the note (None = no note), raw the map path -> added line numbers that repo.diff_added_lines
-   returns, ga / gd the numstat totals, m the behaviour of `+` on u32 (Checked = panic on
-   overflow, Wrapping = wrap around).  stats_for_commit prepends the numstat loop.
-   added_count ignored raw = number of distinct added lines of the non-ignored files;
-   inter_count ignored n raw = number of those lines that the note attributes to AI.
+   returns, ga / gd the numstat totals, m the behaviour of the remaining plain `+` on u32
+   (Checked = panic on overflow, Wrapping = wrap around).  stats_for_commit prepends the numstat
+   loop.  added_count ignored raw = number of distinct added lines of the non-ignored files;
+   attributed ignored n raw p x = line x of the non-ignored file p was added by the commit and the
+   note attributes it to AI.
 
-   Full-strength statement: for every commit (every n, raw, numstat text) all the equalities of
-   the property hold.  It is FALSE of the faithful model in five ways, each a theorem below:
-     C19_tool_mixed_refuted            the per-tool mixed_additions / ai_additions are not capped while
-                                       the totals are (class Known_C19, finding C19-K1): holds for
-                                       notes satisfying every hypothesis;
-     C19_overlap_double_count_refuted  two sessions listing the same line are counted twice
-                                       (hypothesis note_disjoint is necessary; ties C19 to C05);
-     C19_duplicate_section_refuted     two sections for one file (note_paths_unique is necessary);
-     C19_missing_prompt_refuted        a session without prompt record is in no tool's breakdown
-                                       (note_prompts_present is necessary for the per-tool sum);
-     C19_overflow_refuted              a prompt counter near u32::MAX panics (Checked) or yields a
-                                       per-tool ai_additions that is not accepted + mixed (Wrapping).
-   Hypotheses the proofs force, per theorem:
+   Hypotheses the proofs force, per theorem (the note may be ANY note: overlapping sessions,
+   duplicate sections, inverted ranges are all covered):
      accepted <= added, human + accepted = added, ai <= added :
-         note_disjoint, note_paths_unique, ga = added_count (numstat agrees with the diff), ga u32
+         ga = added_count (numstat agrees with the diff) and ga is a u32
      ai = accepted + mixed : ga is a u32, nothing else
-     accepted = intersection : note_disjoint, note_paths_unique, added_count u32, not a merge commit
-         (for a merge commit accepted is 0 by the short cut in the code)
-     per-tool accepted sums : note_ok (all three parts), added_count u32
-     per-tool mixed / ai_additions sums : the above, ga = added_count, and Known_C19 = false
-     per-tool generated / deleted sums : the totals fit in a u32
+     accepted = cardinality of the attributed set : added_count is a u32, not a merge commit
+         (for a merge commit accepted is 0 by the short cut in the code: C19_merge_accepted_zero)
+     per-tool mixed sums to the total : nothing
+     per-tool accepted sums to the total : note_prompts_present, added_count is a u32
+     per-tool ai_additions sum to the total and none exceeds added : the two above and the agreement
+     per-tool generated / deleted sums : the totals fit in a u32 (they saturate otherwise)
+     no panic : added_count and ga are u32
      numstat totals : git prints one `added TAB deleted TAB path` row per file (`-` for binary),
-         paths without newline / tab / trailing CR (others are quoted by git), totals fit in a u32 *)
+         paths without newline / tab / trailing CR (others are quoted by git), totals fit in a u32
+   Still false of the model (open finding C19-K3): C19_missing_prompt_refuted, a session without
+   prompt record is in no tool's breakdown, so note_prompts_present is necessary for the per-tool
+   accepted sum. *)
 From Coq Require Import List NArith Bool.
 From Verif Require Import Base.Str Model.Stats Proofs.StatsProofs.
 Import ListNotations.
@@ -40,8 +38,7 @@ Open Scope N_scope.
 Theorem C19_accepted_le_added :
   forall m ignored n raw is_merge ga gd s,
     commit_stats m ignored n raw is_merge ga gd = SOk s ->
-    olift note_disjoint n = true -> olift note_paths_unique n = true ->
-    ga = added_count ignored raw -> ga <= u32_max ->
+    added_count ignored raw <= u32_max -> ga = added_count ignored raw ->
     s_accepted s <= s_added s.
 Proof. exact accepted_le_added. Qed.
 Print Assumptions C19_accepted_le_added.
@@ -49,8 +46,7 @@ Print Assumptions C19_accepted_le_added.
 Theorem C19_human_plus_accepted_eq_added :
   forall m ignored n raw is_merge ga gd s,
     commit_stats m ignored n raw is_merge ga gd = SOk s ->
-    olift note_disjoint n = true -> olift note_paths_unique n = true ->
-    ga = added_count ignored raw -> ga <= u32_max ->
+    added_count ignored raw <= u32_max -> ga = added_count ignored raw ->
     s_human s + s_accepted s = s_added s.
 Proof. exact human_plus_accepted. Qed.
 Print Assumptions C19_human_plus_accepted_eq_added.
@@ -65,37 +61,47 @@ Print Assumptions C19_ai_eq_accepted_plus_mixed.
 Theorem C19_ai_le_added :
   forall m ignored n raw is_merge ga gd s,
     commit_stats m ignored n raw is_merge ga gd = SOk s ->
-    olift note_disjoint n = true -> olift note_paths_unique n = true ->
-    ga = added_count ignored raw -> ga <= u32_max ->
+    added_count ignored raw <= u32_max -> ga = added_count ignored raw ->
     s_ai_additions s <= s_added s.
 Proof. exact ai_le_added. Qed.
 Print Assumptions C19_ai_le_added.
 
+(* accepted is the cardinality of the set of added lines that the note attributes to AI,
+   for ANY note *)
 Theorem C19_accepted_is_intersection :
-  forall m ignored n raw ga gd s,
-    commit_stats m ignored n raw false ga gd = SOk s ->
-    olift note_disjoint n = true -> olift note_paths_unique n = true ->
-    added_count ignored raw <= u32_max ->
-    s_accepted s = inter_count ignored n raw.
+  forall m ignored n raw is_merge ga gd s,
+    commit_stats m ignored n raw is_merge ga gd = SOk s ->
+    added_count ignored raw <= u32_max -> is_merge = false ->
+    exists G, NoDup G /\ (forall p x, In (p, x) G <-> attributed ignored n raw p x) /\
+              s_accepted s = N.of_nat (length G).
 Proof. exact accepted_is_intersection. Qed.
 Print Assumptions C19_accepted_is_intersection.
 
 Theorem C19_tool_accepted_sums :
   forall m ignored n raw is_merge ga gd s,
     commit_stats m ignored n raw is_merge ga gd = SOk s ->
-    onote_ok n = true -> added_count ignored raw <= u32_max ->
+    added_count ignored raw <= u32_max -> olift note_prompts_present n = true ->
     sum_tools t_accepted (s_tools s) = s_accepted s.
 Proof. exact tool_accepted_sums. Qed.
 Print Assumptions C19_tool_accepted_sums.
 
-Theorem C19_tool_mixed_sums_when_uncapped :
+(* formerly refuted (C19-K1): the breakdown is capped like the total *)
+Theorem C19_tool_mixed_sums :
   forall m ignored n raw is_merge ga gd s,
     commit_stats m ignored n raw is_merge ga gd = SOk s ->
-    onote_ok n = true -> ga = added_count ignored raw -> ga <= u32_max ->
-    Known_C19 n ga (s_accepted s) = false ->
-    sum_tools t_mixed (s_tools s) = s_mixed s /\ sum_tools t_ai_additions (s_tools s) = s_ai_additions s.
-Proof. exact tool_mixed_sums_no_cap. Qed.
-Print Assumptions C19_tool_mixed_sums_when_uncapped.
+    sum_tools t_mixed (s_tools s) = s_mixed s.
+Proof. exact tool_mixed_sums. Qed.
+Print Assumptions C19_tool_mixed_sums.
+
+Theorem C19_tool_ai_sums :
+  forall m ignored n raw is_merge ga gd s,
+    commit_stats m ignored n raw is_merge ga gd = SOk s ->
+    added_count ignored raw <= u32_max -> ga = added_count ignored raw ->
+    olift note_prompts_present n = true ->
+    sum_tools t_ai_additions (s_tools s) = s_ai_additions s /\
+    forall kt, In kt (s_tools s) -> t_ai_additions (snd kt) <= s_added s.
+Proof. exact tool_ai_sums. Qed.
+Print Assumptions C19_tool_ai_sums.
 
 Theorem C19_tool_totals_sum :
   forall m ignored n raw is_merge ga gd s,
@@ -119,6 +125,14 @@ Theorem C19_merge_accepted_zero :
 Proof. exact merge_accepted_zero. Qed.
 Print Assumptions C19_merge_accepted_zero.
 
+(* formerly refuted (C19-K4): with a diff that fits in a u32 nothing overflows, in either mode *)
+Theorem C19_never_panics :
+  forall m ignored n raw is_merge ga gd,
+    added_count ignored raw <= u32_max -> ga <= u32_max ->
+    exists s, commit_stats m ignored n raw is_merge ga gd = SOk s.
+Proof. exact never_panics. Qed.
+Print Assumptions C19_never_panics.
+
 (* the numstat loop returns the totals of what git printed, minus the ignored files *)
 Theorem C19_numstat_totals :
   forall m ignored rows, Forall row_ok rows ->
@@ -128,58 +142,39 @@ Theorem C19_numstat_totals :
 Proof. exact numstat_totals. Qed.
 Print Assumptions C19_numstat_totals.
 
-Theorem C19_tool_mixed_refuted :
-  exists n raw ga, onote_ok n = true /\ ga = added_count no_ignore raw /\ ga <= u32_max /\
-    forall m, exists s, commit_stats m no_ignore n raw false ga 0 = SOk s /\
-      Known_C19 n ga (s_accepted s) = true /\
-      sum_tools t_mixed (s_tools s) <> s_mixed s /\
-      sum_tools t_ai_additions (s_tools s) <> s_ai_additions s /\
-      s_added s < sum_tools t_ai_additions (s_tools s).
-Proof. exact tool_mixed_refuted. Qed.
-Print Assumptions C19_tool_mixed_refuted.
+Theorem C19_numstat_never_panics :
+  forall m ignored text, exists r, parse_numstat m ignored text = SOk r.
+Proof. exact numstat_never_panics. Qed.
+Print Assumptions C19_numstat_never_panics.
 
-Theorem C19_overlap_double_count_refuted :
-  exists n raw ga, olift note_disjoint n = false /\ olift note_paths_unique n = true /\
-    olift note_prompts_present n = true /\ ga = added_count no_ignore raw /\ ga <= u32_max /\
-    forall m, exists s, commit_stats m no_ignore n raw false ga 0 = SOk s /\
-      s_added s < s_accepted s /\ s_human s + s_accepted s <> s_added s /\
-      s_added s < s_ai_additions s /\ s_accepted s <> inter_count no_ignore n raw.
-Proof. exact overlap_double_count_refuted. Qed.
-Print Assumptions C19_overlap_double_count_refuted.
-
-Theorem C19_duplicate_section_refuted :
-  exists n raw ga, olift note_disjoint n = true /\ olift note_paths_unique n = false /\
-    olift note_prompts_present n = true /\ ga = added_count no_ignore raw /\ ga <= u32_max /\
-    forall m, exists s, commit_stats m no_ignore n raw false ga 0 = SOk s /\
-      s_added s < s_accepted s /\ s_human s + s_accepted s <> s_added s /\ s_added s < s_ai_additions s.
-Proof. exact duplicate_section_refuted. Qed.
-Print Assumptions C19_duplicate_section_refuted.
+(* the witnesses of the former findings K1, K2 (two sessions / two sections) and K4 *)
+Theorem C19_regressions : forall m,
+  commit_stats m no_ignore wit_cap w_raw false 1 0
+    = SOk (mkStats 0 0 1 1 1 0 0 1 [(w_key, mkTool 1 0 1 1 0)]) /\
+  commit_stats m no_ignore wit_overlap w_raw false 1 0
+    = SOk (mkStats 0 0 1 1 2 0 0 1 [(w_key, mkTool 1 0 1 1 0); ([117; 58; 58; 109], mkTool 0 0 0 1 0)]) /\
+  commit_stats m no_ignore wit_dup w_raw false 1 0
+    = SOk (mkStats 0 0 1 1 1 0 0 1 [(w_key, mkTool 1 0 1 1 0)]) /\
+  commit_stats m no_ignore wit_ovf w_raw false 1 0
+    = SOk (mkStats 0 0 1 1 2 0 0 1 [(w_key, mkTool 1 0 1 2 0)]).
+Proof. exact regressions. Qed.
+Print Assumptions C19_regressions.
 
 Theorem C19_missing_prompt_refuted :
-  exists n raw ga, olift note_disjoint n = true /\ olift note_paths_unique n = true /\
-    olift note_prompts_present n = false /\ ga = added_count no_ignore raw /\ ga <= u32_max /\
+  exists n raw ga, olift note_prompts_present n = false /\ ga = added_count no_ignore raw /\ ga <= u32_max /\
     forall m, exists s, commit_stats m no_ignore n raw false ga 0 = SOk s /\
       sum_tools t_accepted (s_tools s) <> s_accepted s.
 Proof. exact missing_prompt_refuted. Qed.
 Print Assumptions C19_missing_prompt_refuted.
 
-Theorem C19_overflow_refuted :
-  exists n raw ga, onote_ok n = true /\ ga = added_count no_ignore raw /\ ga <= u32_max /\
-    commit_stats Checked no_ignore n raw false ga 0 = SPanic /\
-    exists s, commit_stats Wrapping no_ignore n raw false ga 0 = SOk s /\
-      exists kt, In kt (s_tools s) /\ t_ai_additions (snd kt) <> t_accepted (snd kt) + t_mixed (snd kt).
-Proof. exact overflow_refuted. Qed.
-Print Assumptions C19_overflow_refuted.
-
-(* non-vacuity: a commit with two files (one ignored), two sessions of two tools, a human line, a
-   binary file and an overridden line, through the whole of stats_for_commit_stats (numstat
-   text included): every hypothesis above holds and every number is non-trivial *)
+(* non-vacuity: a commit with two files (one ignored), two sessions of two tools listing one line
+   twice, a human line, a binary file and an overridden line, through the whole of
+   stats_for_commit_stats (numstat text included) *)
 Theorem C19_nonvacuous :
-  onote_ok nv_note = true /\ added_count nv_ignore nv_raw = 5 /\ inter_count nv_ignore nv_note nv_raw = 3 /\
-  Known_C19 nv_note 5 3 = false /\
+  olift note_prompts_present nv_note = true /\ added_count nv_ignore nv_raw = 5 /\ inter_count nv_ignore nv_note nv_raw = 3 /\
   forall m, stats_for_commit m nv_ignore nv_text nv_note nv_raw false
     = SOk (mkStats 2 1 4 3 5 2 1 5
-             [([116; 58; 58; 109], mkTool 3 1 2 1 0); ([117; 58; 58; 109], mkTool 1 0 1 4 2)]).
+             [(w_key, mkTool 3 1 2 1 0); ([117; 58; 58; 109], mkTool 1 0 1 4 2)]).
 Proof. exact nonvacuous. Qed.
 Print Assumptions C19_nonvacuous.
 
@@ -188,5 +183,6 @@ Example C19_ex_numstat :
   = SOk (5, 1).
 Proof. vm_compute. reflexivity. Qed.
 
-Example C19_ex_overlap : overlap_len (Range 4 8) [3; 5; 7; 9] = 2 /\ overlap_len (Single 5) [3; 5; 7] = 1.
-Proof. vm_compute. split; reflexivity. Qed.
+Example C19_ex_overlap : overlap_len (Range 4 8) [3; 5; 7; 9] = 2 /\ overlap_len (Single 5) [3; 5; 7] = 1 /\
+  line_range_overlap (Range 8 4) [3; 5; 7; 9] = [].
+Proof. vm_compute. split; [|split]; reflexivity. Qed.
